@@ -245,11 +245,30 @@ fn run_batch(prop: &str, master: u64, jobs: &[(Sim, usize)], workers: usize, kno
         let t0 = Instant::now();
         let next = AtomicUsize::new(0);
         let stop = AtomicBool::new(false);
+        // watchdog: a run that does not end (an endless loop in the code under test) cannot be judged or
+        // replayed; it is reported with its seed as a harness error (exit 2) instead of hanging the check
+        let running: Vec<std::sync::atomic::AtomicU64> = (0..workers).map(|_| std::sync::atomic::AtomicU64::new(u64::MAX)).collect();
+        let started: Vec<Mutex<Instant>> = (0..workers).map(|_| Mutex::new(Instant::now())).collect();
+        let batch_done = AtomicBool::new(false);
+        let live = AtomicUsize::new(workers);
         let merged: Mutex<(Stats, Vec<RunResult>, Vec<(usize, String)>, Vec<(usize, String)>, BTreeMap<String, (String, u64)>)> =
             Mutex::new((Stats::default(), Vec::new(), Vec::new(), Vec::new(), BTreeMap::new()));
         std::thread::scope(|scope| {
-            for _ in 0..workers {
-                let _ = std::thread::Builder::new().stack_size(32 << 20).spawn_scoped(scope, || {
+            scope.spawn(|| {
+                while !batch_done.load(Ordering::Relaxed) {
+                    std::thread::sleep(Duration::from_millis(250));
+                    for w in 0..workers {
+                        let i = running[w].load(Ordering::Relaxed);
+                        if i != u64::MAX && started[w].lock().unwrap().elapsed() > Duration::from_secs(600) {
+                            eprintln!("harness error: {} run {i} (seed {}) has not finished after 600 s - endless loop in the code under test or in the harness; not decidable", sim.name(), run_seed(master, *sim, i as usize));
+                            std::process::exit(2);
+                        }
+                    }
+                }
+            });
+            for w in 0..workers {
+                let (running, started, live, batch_done, stop, next, merged) = (&running, &started, &live, &batch_done, &stop, &next, &merged);
+                let _ = std::thread::Builder::new().stack_size(32 << 20).spawn_scoped(scope, move || {
                     // big stack: decode keeps a 128 KiB erasure array per frame, lockstep adds copies
                     let mut local = Stats::default();
                     let mut local_fail = Vec::new();
@@ -269,6 +288,8 @@ fn run_batch(prop: &str, master: u64, jobs: &[(Sim, usize)], workers: usize, kno
                         if i >= *n {
                             break;
                         }
+                        *started[w].lock().unwrap() = Instant::now();
+                        running[w].store(i as u64, Ordering::Relaxed);
                         let caught = std::panic::catch_unwind(std::panic::AssertUnwindSafe(|| run_one(*sim, prop, i, run_seed(master, *sim, i), None, false)));
                         let mut res = match caught {
                             Ok(r) => r,
@@ -299,6 +320,10 @@ fn run_batch(prop: &str, master: u64, jobs: &[(Sim, usize)], workers: usize, kno
                                 local_fail.push(res);
                             }
                         }
+                    }
+                    running[w].store(u64::MAX, Ordering::Relaxed);
+                    if live.fetch_sub(1, Ordering::Relaxed) == 1 {
+                        batch_done.store(true, Ordering::Relaxed);
                     }
                     let mut m = merged.lock().unwrap();
                     m.0.merge(&local);
